@@ -20,6 +20,12 @@ def run(ck):
             ck.merge(r)
         else:
             ck.merge(r["C06"])
+    # several tracing blocks in one interpreter sharing a logger / a Config object while the limit changes (larger limits first)
+    from vf.props import sessions
+
+    sessions.run_into(ck, "C06", 32 if ck.tier == "quick" else 400)
+    ck.need("session_traces_scanned", 500)
+    ck.need("session_typeddict_nodes", 200)
     ck.need("stored_rows_scanned", 1000)
     ck.need("pinned_shape_programs", 1)
     ck.need("stored_typeddict_nodes", 100)
@@ -29,7 +35,7 @@ def run(ck):
     ck.need("dict_over_limit_by_one", 100, "no dict at size k+1")
     ck.need("merged_keyset_over_limit", 100, "no merged key-set exceeding k")
     ck.need("nonstr_key_dict", 100)
-    return ck.finish(rule=infer.RULES["C06"] + "; end to end: generated programs run through `monkeytype run` at each k, every stored row scanned for TypedDict nodes through an independent sqlite3 connection, every `class ...(TypedDict)` of the stubs measured against k", assumptions=["which dicts may become TypedDicts is the statement itself: all keys str, 1 <= size <= k"])
+    return ck.finish(rule=infer.RULES["C06"] + "; end to end: generated programs run through `monkeytype run` at each k, every stored row scanned for TypedDict nodes through an independent sqlite3 connection, every `class ...(TypedDict)` of the stubs measured against k; sessions of 6 tracing blocks in one interpreter (trace_calls with one logger, monkeytype.trace with one Config object) whose limit changes per block: every logged trace against the limit of its block", assumptions=["which dicts may become TypedDicts is the statement itself: all keys str, 1 <= size <= k"])
 
 
 def replay(ck, path):
